@@ -170,3 +170,67 @@ pub fn wstall(args: &[&str]) -> Option<Vec<String>> {
     let _ = server.join();
     Some(vec![format!("{out}@{elapsed}")])
 }
+
+
+/// `cstall <client s|a> <T ms>`: the peer is a listening socket whose accept queue is full and that nobody accepts from
+/// (Linux drops further SYNs), so the client blocks in *connect*. Reports as `wstall`.
+pub fn cstall(args: &[&str]) -> Option<Vec<String>> {
+    use std::os::fd::AsRawFd;
+    let client = *args.first()?;
+    let t_ms: u64 = args.get(1)?.parse().ok()?;
+    let listener = std::net::TcpListener::bind("127.0.0.1:0").ok()?;
+    // SAFETY: listen(2) on a valid listening socket only changes its backlog
+    unsafe { libc::listen(listener.as_raw_fd(), 0) };
+    let addr = listener.local_addr().ok()?;
+    let port = addr.port();
+    let mut fillers = vec![];
+    let mut full = false;
+    for _ in 0..8 {
+        match std::net::TcpStream::connect_timeout(&addr, Duration::from_millis(150)) {
+            Ok(s) => fillers.push(s),
+            Err(_) => {
+                full = true;
+                break;
+            }
+        }
+    }
+    if !full {
+        return Some(vec!["setup@-@0".into()]);
+    }
+    let timeout = Duration::from_millis(t_ms);
+    let cap = timeout * 10 + Duration::from_secs(3);
+    let envelope = lettre::address::Envelope::new(Some("a@b.c".parse().ok()?), vec!["x@y.z".parse().ok()?]).ok()?;
+    let hello = ClientId::Domain("c.example".into());
+    let t0 = Instant::now();
+    let out = match client {
+        "s" => {
+            let (tx, rx) = std::sync::mpsc::channel();
+            std::thread::spawn(move || {
+                let t = SmtpTransport::builder_dangerous("127.0.0.1").port(port).hello_name(hello).timeout(Some(timeout)).build();
+                let r = t.send_raw(&envelope, b"m\r\n");
+                let _ = tx.send(format!("{}@{}", describe(&r), is_timeout(&r)));
+            });
+            match rx.recv_timeout(cap) {
+                Ok(s) => s,
+                Err(_) => "HANG@-".into(),
+            }
+        }
+        "a" => {
+            let rt = tokio::runtime::Builder::new_multi_thread().worker_threads(2).enable_all().build().ok()?;
+            let s = rt.block_on(async {
+                let t: AsyncSmtpTransport<Tokio1Executor> =
+                    AsyncSmtpTransport::<Tokio1Executor>::builder_dangerous("127.0.0.1").port(port).hello_name(hello).timeout(Some(timeout)).build();
+                match tokio::time::timeout(cap, t.send_raw(&envelope, b"m\r\n")).await {
+                    Ok(r) => format!("{}@{}", describe(&r), is_timeout(&r)),
+                    Err(_) => "HANG@-".into(),
+                }
+            });
+            rt.shutdown_background();
+            s
+        }
+        _ => return None,
+    };
+    let elapsed = t0.elapsed().as_millis();
+    drop(fillers);
+    Some(vec![format!("{out}@{elapsed}")])
+}
